@@ -33,6 +33,47 @@ def kind_switch(fn):
     return None
 
 
+def kind_regions(fn):
+    """For functions that consult the kind through several tests (`if let Kind::Borrowed = kind { return .. }` guard
+    clauses, a kind bound to a local first): ({kind: own blocks}, {kind: first own block}, [switch blocks]) — the blocks
+    executed for one kind only, found by following, at every switch on the value of metadata.kind(), that kind's edge."""
+    b = fn.body
+    sy = Sym(fn)
+    sws = {}
+    for i in range(b.n):
+        t = b.term(i)
+        if t["k"] == "switch" and (t.get("enum") or "").endswith("cow::Kind"):
+            d = strip_sym(sy.operand(t["discr"]))
+            if d[0] == "discr" and sym_is_call(strip_sym(d[1]), "Metadata::kind"):
+                covered = {a["variant"]: a["bb"] for a in t["arms"] if a.get("variant")}
+                sws[i] = (covered, t["otherwise"])
+    if not sws:
+        return None
+    reach = {}
+    for k in KINDS:
+        seen, work = set(), [0]
+        while work:
+            x = work.pop()
+            if x in seen:
+                continue
+            seen.add(x)
+            if x in sws:
+                cov, oth = sws[x]
+                work.append(cov.get(k, oth))
+            else:
+                work.extend(y for y in b.succ(x))
+        reach[k] = seen
+    common = set.intersection(*reach.values())
+    own = {k: reach[k] - common for k in KINDS}
+    first = {}
+    for k in KINDS:
+        # the entry of the kind's own part: an own block with a predecessor that is common (or a kind switch)
+        preds = b.preds()
+        cands = sorted(x for x in own[k] if any(p_ in common or p_ in sws for p_ in preds.get(x, [])))
+        first[k] = cands[0] if cands else None
+    return own, first, sorted(sws)
+
+
 def arm_blocks(body, sw, target):
     return {x for x in body.reachable(target) if body.edge_dominates((sw, target), x)}
 
@@ -74,6 +115,22 @@ def released_on_all_paths(fn, blocks, acquire_call, entry):
 
     # the owner may be moved (returned by a spliced helper, bound to another local) before it is dropped
     drops = drop_blocks_of(b, loc)
+    # `drop(owner)`: the value moves into mem::drop, which releases it (whether or not that call unwinds)
+    handed = []
+    for c in fn.body.calls():
+        if c.is_("mem::drop") and c.args and (c.args[0].get("move") or {}).get("l") is not None and not (c.args[0].get("move") or {}).get("pr"):
+            l_ = c.args[0]["move"]["l"]
+            for _ in range(3):
+                if l_ == loc:
+                    break
+                ds_ = b.defs().get(l_, [])
+                if len(ds_) == 1 and ds_[0][0] == "assign" and ds_[0][3]["rv"]["k"] == "use" and (ds_[0][3]["rv"]["a"].get("move") or {}).get("l") is not None and not (ds_[0][3]["rv"]["a"].get("move") or {}).get("pr"):
+                    l_ = ds_[0][3]["rv"]["a"]["move"]["l"]
+                else:
+                    break
+            if l_ == loc:
+                handed.append(c.bb)
+    drops = list(drops) + handed
     if not drops:
         return False, "the rebuilt owner is never dropped"
     start = acquire_call.t.get("target")
@@ -87,7 +144,24 @@ def released_on_all_paths(fn, blocks, acquire_call, entry):
     for x in reach:
         t = b.term(x)
         uw = t.get("unwind")
+        if x in handed:
+            continue
         if t["k"] in ("call", "drop", "assert") and isinstance(uw, int):
+            # a cleanup block that tests a drop flag (the owner is moved out on one path): the flag's value at x is the constant
+            # last assigned on the way to x
+            tu = b.term(uw)
+            if tu["k"] == "switch" and tu.get("dty") == "bool":
+                F = (tu["discr"].get("copy") or tu["discr"].get("move") or {})
+                fdefs = [d for d in b.defs().get(F.get("l"), [])] if F.get("l") is not None and not F.get("pr") else []
+                if fdefs and all(d[0] == "assign" and d[3]["rv"]["k"] == "use" and "bool" in (d[3]["rv"]["a"].get("const") or {}) for d in fdefs):
+                    doms = [d for d in fdefs if b.dominates(d[1], x)]
+                    if doms:
+                        last = max(doms, key=lambda d: (len(b.dominators()[d[1]]), d[2] if len(d) > 2 and isinstance(d[2], int) else 0))
+                        val = bool(last[3]["rv"]["a"]["const"]["bool"])
+                        vals_ = [a_["v"] for a_ in tu["arms"]]
+                        tg_ = [tg for lab, tg in b.switch_edges(uw) if ((not bool(vals_[0]) if len(vals_) == 1 else None) if lab == "otherwise" else bool(lab)) == val]
+                        if len(tg_) == 1:
+                            uw = tg_[0]
             ur = b.reachable(uw, cut=drops, unwind=True)
             if any(b.term(y)["k"] == "resume" for y in ur):
                 return False, f"if the call at line {t.get('ln')} unwinds, the rebuilt owner is not dropped (reference/allocation leaked)"
@@ -265,13 +339,23 @@ def run(ctx):
             b = f.body
             # every return passes through the kind match
             skip = [r for r in b.return_blocks() if r in b.reachable(0, cut={sw})]
+            own_blocks = None
+            if skip or set(edges) != set(KINDS):
+                # the kind consulted by several two-way tests instead of one three-way match
+                kr = kind_regions(f)
+                if kr is not None and all(kr[0][k] for k in KINDS) and all(kr[1][k] is not None for k in KINDS):
+                    own_blocks, firsts, sws_ = kr
+                    skip = [r for r in b.return_blocks() if r in b.reachable(0, cut=set(sws_))]
+                    edges = dict(firsts)
             chk.ob("C14.b", f"{f.path} [every path consults the kind]", not skip and set(edges) == set(KINDS), "all three kinds have their own arm and no return bypasses the match" if not skip and set(edges) == set(KINDS) else ("a return is reachable without consulting metadata.kind() (fast path conflating kinds)" if skip else f"arms for {sorted(edges)} only"), f.loc())
             sy = Sym(f)
             for kind in KINDS:
                 if kind not in edges:
                     continue
-                blocks = arm_blocks(b, sw, edges[kind])
+                blocks = own_blocks[kind] if own_blocks is not None else arm_blocks(b, sw, edges[kind])
                 calls = arm_calls(f, blocks)
+                # a pure projection hoisted in front of the match (`let p = Self::borrowed_from_parts(ptr, metadata);`) serves every arm
+                calls = calls + [c for c in f.body.calls() if c.bb not in blocks and c.is_("Cowable::borrowed_from_parts") and all(b.dominates(c.bb, x) for x in blocks) and c not in calls]
                 eff = effects(calls)
                 names = sorted(e[0] for e in eff)
                 where = f"{f.path} [{kind}]"
